@@ -136,9 +136,10 @@ def _leaf_grid(pid):
         fails += rt.rt_spline_grid(pid, count=cnt)
         if pid in ("C01", "C02"):
             fails += rt.rt_zoo_B(pid, count=cnt)
+            fails += rt.rt_triangular(tier, count=cnt)
         cnt = [sum(cnt)]
         return dict(evaluations=cnt[0], distinct_nontrivial=cnt[0],
-                    rule="real RationalQuadraticSpline (trained-like perturbed raw parameters, intervals with and without 0) at every knot / interval end / float neighbour / bin midpoint / outside point, contract B (round trips, same point, log-det vs autodiff slogdet, inverse log-det) on an object zoo of EVERY buildable bijection class incl. combinators and structured layers, and real elementwise leaf bijections (float64) x parameter sets (positive/negative/small/large scales, several max_val) x boundary-directed points (0, +-1, +-max_val, +-tanh(max_val), their float neighbours, 1e-8, 1e4); each (class, params, point) is distinct",
+                    rule="real RationalQuadraticSpline (trained-like perturbed raw parameters, intervals with and without 0) at every knot / interval end / float neighbour / bin midpoint / outside point, TriangularAffine with every trainable leaf moved (C01/C02), contract B (round trips, same point, log-det vs autodiff slogdet, inverse log-det) on an object zoo of EVERY buildable bijection class incl. combinators and structured layers, and real elementwise leaf bijections (float64) x parameter sets (positive/negative/small/large scales, several max_val) x boundary-directed points (0, +-1, +-max_val, +-tanh(max_val), their float neighbours, 1e-8, 1e4); each (class, params, point) is distinct",
                     samples=[dict(cls="LeakyTanh", params=dict(max_val=3.0), point=3.0)], failures=fails[:5], errors=[])
     return g
 
@@ -211,8 +212,11 @@ def g_c06(tier, seed):
 def g_c11(tier, seed):
     cnt = []
     fails = rt.rt_c11(tier, count=cnt)
+    c2 = []
+    fails += rt.rt_triangular(tier, count=c2)
+    cnt = [sum(cnt) + sum(c2)]
     return dict(evaluations=cnt[0] if cnt else 0, distinct_nontrivial=cnt[0] if cnt else 0,
-                rule="float32 and float64: constructor arguments of magnitude 1e-6..1e6 read back through the accessors (Affine/Scale/Normal/StudentT/Exponential/Uniform), invalid arguments at the edge of validity must be rejected, raw arrays moved to |raw| <= 50 / N(0,s^2): scales and df positive, spline knots strictly increasing with derivatives >= min_derivative, mixture weights normalised, weight-norm rows keep their norm, planar leaky-relu layers (slope <= 1) invertible",
+                rule="float32 and float64: constructor arguments of magnitude 1e-6..1e6 read back through the accessors (Affine/Scale/Normal/StudentT/Exponential/Uniform), invalid arguments at the edge of validity must be rejected, raw arrays moved to |raw| <= 50 / N(0,s^2): scales and df positive, spline knots strictly increasing with derivatives >= min_derivative, mixture weights normalised, weight-norm rows keep their norm, planar leaky-relu layers (slope <= 1) invertible; TriangularAffine (lower/upper, dim 1-4) with every trainable leaf moved: triangular, positive diagonal, contract B",
                 samples=[dict(what="Affine.scale", magnitude=100.0, dtype="float32")], failures=fails[:5], errors=[])
 
 
